@@ -388,7 +388,8 @@ theorem history_links_only_by_successful_pull (H : Bytes → D) (cfg : Cfg) (n :
     · exact pull_links_other H cfg c a n hn
 
 /-- **The retry loop of `handlePull`.**  However many times it retries, if the loop ends with an
-    error (or runs out of script) no link has changed: retried attempts were failures. -/
+    error (or the client goes away while it retries) no link has changed: retried attempts were
+    failures. -/
 theorem handlePull_links_only_by_successful_pull (H : Bytes → D) (cfg : Cfg) (as : List (Attempt D)) :
     ∀ c : Cache D, (handlePull H cfg c as).2 ≠ some .ok → (handlePull H cfg c as).1.links = c.links := by
   induction as with
@@ -400,13 +401,31 @@ theorem handlePull_links_only_by_successful_pull (H : Bytes → D) (cfg : Cfg) (
     · have hnok : (pull H cfg c a).2 ≠ .ok := by
         intro h0; rw [h0] at hr; simp [canRetry] at hr
       simp only [hr, if_true] at h ⊢
-      cases as with
-      | nil => exact failed_pull_keeps_links H cfg c a hnok
-      | cons b bs =>
-        simp only at h ⊢
-        rw [ih (pull H cfg c a).1 h, failed_pull_keeps_links H cfg c a hnok]
+      rw [ih (pull H cfg c a).1 h, failed_pull_keeps_links H cfg c a hnok]
     · simp only [hr] at h ⊢
       exact failed_pull_keeps_links H cfg c a (fun h0 => h (by simp [h0]))
+
+/-- **Every way out of the loop.**  The loop returns the result of a `Pull` only if that result is
+    not retryable (success or a permanent error); it ends without one (`none`) only by the
+    request context ending, after every `Pull` it made was a retryable failure; and it makes as
+    many attempts as that takes — no limit. -/
+theorem handlePull_exits (H : Bytes → D) (cfg : Cfg) (as : List (Attempt D)) :
+    ∀ c : Cache D,
+      (∀ o, (handlePull H cfg c as).2 = some o → canRetry o = false) ∧
+      ((handlePull H cfg c as).2 = none → handlePullAttempts H cfg c as = as.length) := by
+  induction as with
+  | nil => intro c; exact ⟨fun o h => by simp [handlePull] at h, fun _ => rfl⟩
+  | cons a as ih =>
+    intro c
+    unfold handlePull handlePullAttempts
+    by_cases hr : canRetry (pull H cfg c a).2 = true
+    · simp only [hr, if_true]
+      obtain ⟨h1, h2⟩ := ih (pull H cfg c a).1
+      exact ⟨h1, fun hn => by simp [h2 hn]⟩
+    · simp only [hr]
+      refine ⟨fun o h => ?_, fun h => by simp at h⟩
+      injection h with h
+      rw [← h]; simpa using hr
 
 /-! ### `pull_success_verified`, partial form -/
 
@@ -1068,6 +1087,39 @@ theorem history_linked_layers_verified (H : Bytes → D) (cfg : Cfg) (hv : cfg.v
     intro c h
     simp only [pullHistory]
     exact ih _ (pull_keeps_linkedVerified H cfg hv hs hcol c a h)
+
+/-- **`handlePull` says success ⇒ the model is there.**  For every verifying tree, every starting
+    cache and every sequence of attempt scripts (any number of temporary failures first): if the
+    handler ends the stream with `"status":"success"`, then some attempt's manifest has every
+    layer in the final cache with exactly the manifest's size and digest, and (unless `Link`'s
+    same-size shortcut F8 applies) the name is linked to that manifest. -/
+theorem handlePull_success_verified (H : Bytes → D) (cfg : Cfg) (hv : cfg.verify = true)
+    (hcol : cfg.staged = true → NoLenCollision H) (as : List (Attempt D)) :
+    ∀ c : Cache D, handlerSaysSuccess (handlePull H cfg c as).2 = true →
+      ∃ a ∈ as, ∃ m, a.man = .ok m ∧ (∀ l ∈ m.all, Good H (handlePull H cfg c as).1 l.digest l.size) ∧
+        (cfg.linkShortcut = false → (handlePull H cfg c as).1.links a.name = some m) := by
+  induction as with
+  | nil => intro c h; simp [handlePull, handlerSaysSuccess] at h
+  | cons a as ih =>
+    intro c h
+    unfold handlePull at h ⊢
+    by_cases hr : canRetry (pull H cfg c a).2 = true
+    · simp only [hr, if_true] at h ⊢
+      obtain ⟨a', ha', m, hm, hg, hl⟩ := ih (pull H cfg c a).1 h
+      exact ⟨a', by simp [ha'], m, hm, hg, hl⟩
+    · simp only [hr] at h ⊢
+      have hok : (pull H cfg c a).2 = .ok := by simpa [handlerSaysSuccess] using h
+      have hpair : pull H cfg c a = ((pull H cfg c a).1, .ok) := by rw [← hok]
+      obtain ⟨m, hm, hg⟩ := pull_success_verified H cfg hv hcol c _ a hpair
+      obtain ⟨m', st, c1, hm', _, _, _, _, _, _, _, hc'⟩ := pull_links_last H cfg c _ a hpair
+      have : m' = m := by rw [hm] at hm'; injection hm' with e; exact e.symm
+      subst this
+      have hlink : cfg.linkShortcut = false → (pull H cfg c a).1.links a.name = some m' := by
+        intro hsc
+        rw [hc']
+        unfold Cache.link
+        split <;> simp [hsc]
+      exact ⟨a, by simp, m', hm, hg, hlink⟩
 
 theorem linkedVerified_empty (H : Bytes → D) : LinkedVerified H (Cache.empty : Cache D) := by
   intro n m h; simp [Cache.empty] at h
